@@ -443,6 +443,19 @@ impl PacketTrait for SecretSubkey {
     }
 }
 
+/// Keeps the length recorded in the packet header in line with the body, after the secret key
+/// material changed its size (fixed and partial lengths are written as fixed lengths).
+fn refresh_header_len(packet_header: &mut PacketHeader, body_len: usize) -> Result<()> {
+    if packet_header.packet_length().maybe_len().is_some() {
+        *packet_header = PacketHeader::from_parts(
+            packet_header.version(),
+            packet_header.tag(),
+            crate::types::PacketLength::Fixed(body_len.try_into()?),
+        )?;
+    }
+    Ok(())
+}
+
 impl SecretKey {
     /// Remove the password protection of the private key material in this secret key packet.
     /// This permanently "unlocks" the secret key material.
@@ -454,6 +467,8 @@ impl SecretKey {
         if let SecretParams::Encrypted(enc) = &self.secret_params {
             let unlocked = enc.unlock(password, &self.details, Some(self.packet_header.tag()))?;
             self.secret_params = SecretParams::Plain(unlocked);
+            let body_len = self.write_len();
+            refresh_header_len(&mut self.packet_header, body_len)?;
         }
 
         Ok(())
@@ -499,6 +514,8 @@ impl SecretKey {
             &self.details,
             Some(self.packet_header.tag()),
         )?);
+        let body_len = self.write_len();
+        refresh_header_len(&mut self.packet_header, body_len)?;
 
         Ok(())
     }
@@ -515,6 +532,8 @@ impl SecretSubkey {
         if let SecretParams::Encrypted(enc) = &self.secret_params {
             let unlocked = enc.unlock(password, &self.details, Some(self.packet_header.tag()))?;
             self.secret_params = SecretParams::Plain(unlocked);
+            let body_len = self.write_len();
+            refresh_header_len(&mut self.packet_header, body_len)?;
         }
 
         Ok(())
@@ -558,6 +577,8 @@ impl SecretSubkey {
             &self.details,
             Some(self.packet_header.tag()),
         )?);
+        let body_len = self.write_len();
+        refresh_header_len(&mut self.packet_header, body_len)?;
 
         Ok(())
     }
